@@ -135,8 +135,10 @@ def healpix(w, seed, spec):
     from furax.landscapes import HealpixLandscape
     fails = []
     rng = np.random.default_rng(seed)
-    for nside in (1, 2, 4, 16):
-        h = HealpixLandscape(nside)
+    # the dtype of the landscape is the dtype of the MAP VALUES: it must not leak into the pointing angles
+    for nside, dt in [(1, None), (2, None), (4, None), (16, None), (4, np.float16), (16, np.int32), (1, np.float16),
+                      (8, np.float32)]:
+        h = HealpixLandscape(nside) if dt is None else HealpixLandscape(nside, dtype=dt)
         theta = rng.uniform(0.05, np.pi - 0.05, 300)
         phi = rng.uniform(0, 2 * np.pi, 300)
         got = np.asarray(h.world2index(jnp.asarray(theta), jnp.asarray(phi)))
@@ -146,8 +148,8 @@ def healpix(w, seed, spec):
         bad = (got != ref) & (got != ref64)
         if bad.mean() > 0.02:
             i = int(np.flatnonzero(bad)[0])
-            fails.append(f'nside {nside}: world2index({theta[i]}, {phi[i]}) = {got[i]}, healpy gives {ref[i]} '
-                         f'({bad.sum()} of 300 differ)')
+            fails.append(f'nside {nside}, landscape dtype {np.dtype(h.dtype).name}: world2index({theta[i]}, {phi[i]}) = '
+                         f'{got[i]}, healpy gives {ref[i]} ({bad.sum()} of 300 differ)')
     return fails
 
 
